@@ -13,26 +13,46 @@ META = {
     "text": ("Theorems Hv.C23.migrate_preserves (the migrated file loads to a member of the legacy-load relation, to exactly the legacy "
              "result when keys are distinct, under the name from the meta file), migrate_failure_atomic (any failed step leaves the V1 "
              "files untouched and no .hyd behind), migrate_delete_last (V1 files are removed only with DeleteOld, after write and "
-             "verification succeeded, or for an empty swamp), migrate_dryRun_noop; Hv.Migrate.parseMig_encode / parseV1_encode / "
+             "verification succeeded, or for an empty swamp), migrate_dryRun_noop, migrate_existing_kept (whatever is at the target path "
+             "before the run — Disk.hyd is arbitrary in failureAtomic / deleteLast / nameNotDropped / existingKept, only `preserves` is about "
+             "a free target — is still there afterwards and no live run reports success next to it), migrate_no_silent_drop (a live run "
+             "succeeds only if the V2 writer accepted every record: a V1 record with an empty key fails the load phase, one with a key over "
+             "65535 bytes the write phase — unstorable_key_aborts, Hv.MigrateV2.long_key_refused — atomically); Hv.Migrate.parseMig_encode / parseV1_encode / "
              "readers_agree (the migrator's and the legacy segment readers return exactly the written segments); closed refutations "
-             "for delete-before-verify, first-wins dedupe, .hyd left after failed verify / failed create; verify_weaker and the "
-             "chunk-overflow duplicate as observations. classify_sound ties the decision to 11 extracted facts. Folders are built by "
+             "for delete-before-verify, first-wins dedupe, .hyd left after failed verify / failed create, name lost when the meta file is unreadable, "
+             "appending to a .hyd that is already there (appendsExisting_mixes: success with another swamp's name and records; "
+             "appendsExisting_destroys: a failing write / verification removes the file that was there); verify_weaker and the "
+             "chunk-overflow duplicate as observations. classify_sound ties the decision to 13 extracted facts. Folders are built by "
              "the real V1 engine from generated histories (tiny chunk sizes), migrated by the real migrator under every option "
              "combination and with injected open/write/verify/unlink failures, and loaded back by the real V2 engine; records are "
-             "compared by their whole gob model, not by key."),
+             "compared by their whole gob model, not by key. Swamp names are mixed-case, non-ASCII, 400..800 bytes long and one of 70000 bytes; the "
+             "name read back from the .hyd is compared byte for byte with the name the harness decodes from the V1 meta file itself. Folders with a "
+             "hand-made empty-key record and a 70000-byte-key record. A file planted at the target path (valid V2 file of another swamp / header-only "
+             "/ junk) under four option combinations and with write and verification failures. fault=dropkey: the hook between write and verify "
+             "swaps the new file for a valid one that lacks a key, so verification fails on a really missing key."),
     "note": ("Trusted: Lean kernel (propext, Classical.choice, Quot.sound); extract/c23.go; harness/c23.go (its own framing parser + gob "
-             "decode describe the folder to the model). ASSUMED (V2.Lawful, owned by C01/C05): with distinct keys a written .hyd file "
-             "loads back to the inserted records and name; gob decoding of the key; snappy round-trip. Folders with a key in several "
-             "chunks (V1 chunk-overflow defect) have no unique legacy result: reported separately as dup-ok."),
+             "decode describe the folder to the model). The V2 codec is a parameter (V2.Lawful: with distinct keys a written file loads "
+             "back to the inserted records and name); it is DISCHARGED for the C01 storage model by Hv.MigrateV2.storV2_lawful, which "
+             "instantiates write = C01 writer model (createFile; WriteEntry(insert)…; Close) and load = C01 loadIndex and derives the three "
+             "laws from Hv.Storage.loadIndex_runOps + replay_eq_specOf + find_specOf (stor1), for every lawful block codec and checksum, the "
+             "default block size, keys 1..65535 bytes, payloads <= 1 GiB and a non-empty name < 65536 bytes; Hv.C23.migrate_preserves_c01 is "
+             "the resulting statement without any V2 assumption (stor1 exports the same round trip as Hv.C01.inserts_roundtrip). Lawful is required only "
+             "for records the writer accepts (V2.Lawful.acc/accN tie okE/okN to WriteEntry's and createNewFile's own checks); a record outside is "
+             "covered by noSilentDrop + failureAtomic. Still assumed: gob decodes the key the V1 engine encoded; snappy "
+             "round-trips (Codec.law). Folders with a key in several chunks (V1 chunk-overflow defect) have no unique legacy result: "
+             "reported separately as dup-ok."),
     "design_ref": "§8 C23",
 }
 
 FINDINGS = {
     "C23-hyd-left-after-failed-create": "a write failure while the .hyd file is being created (header / swamp name) leaves the partial file behind: "
                                         "the migration reports failure but a .hyd now shadows the intact V1 folder",
+    "C23-name-lost-when-meta-unreadable": "an unreadable meta file is only logged: the .hyd is written without the swamp name, and DeleteOld then removes the only copy of it",
     "C23-delete-before-verify": "V1 files are deleted before verification",
     "C23-dedupe-keeps-first": "dedupe keeps the first value of a key",
     "C23-hyd-left-after-failed-verify": "the .hyd file is left behind after a failed verification",
+    "C23-existing-hyd-appended": "a .hyd file that is already at the target path is opened for appending: it keeps its own swamp name and records under the migrated "
+                                 "ones, and a failing write or verification removes it",
 }
 
 
@@ -42,7 +62,7 @@ def kv(line):
 
 def op_kv(op):
     head = op.split(" | ")[0].split(" ")
-    return {"v": head[2][2:], "d": head[3][2:], "r": head[4][2:], "fault": head[5][6:]} if len(head) == 6 else {}
+    return {"v": head[2][2:], "d": head[3][2:], "r": head[4][2:], "fault": head[5][6:], "pre": head[6][4:]} if len(head) == 7 else {}
 
 
 def impl_violation(op, line):
@@ -51,20 +71,33 @@ def impl_violation(op, line):
         return None
     o, r = op_kv(op), kv(line)
     res = r.get("res", "")
-    if "error" in res or res in ("", "nothing") or line in ("bad-op", "copy-error", "no-swamp", "read-error"):
+    if "error" in res or res in ("", "nothing") or line in ("bad-op", "copy-error", "no-swamp", "read-error", "no-meta-name", "plant-error"):
         return "harness could not run the migration: " + line
+    pre = o.get("pre", "none") != "none"
+    if pre and r.get("hyd") != "kept":
+        return ("a .hyd file was already at the target path: the run %s it (result %s)"
+                % ("removed" if r.get("hyd") == "0" else "appended to / replaced", res))
+    if pre and res == "success" and o.get("r") != "1":
+        return "success reported although the target path was not free"
     if res.startswith("failed"):
         if r.get("v1") != "same":
             return "migration failed (%s) but the V1 files changed (%s)" % (res, r.get("v1"))
-        if r.get("hyd") != "0":
+        if r.get("hyd") != ("kept" if pre else "0"):
             return "migration failed (%s) but a .hyd file was left behind" % res
         return None
     if o.get("r") == "1":
-        if r.get("v1") != "same" or r.get("hyd") != "0":
+        if r.get("v1") != "same" or r.get("hyd") != ("kept" if pre else "0"):
             return "dry run changed the disk (%s)" % line
         return None
+    if o.get("fault") == "dropkey" and o.get("v") == "1" and res == "success":
+        return "verification passed although a key is missing from the new file"
     if r.get("v1") != "same" and o.get("d") != "1":
         return "V1 files removed without DeleteOld"
+    if res == "skipped" and "=" in op.split(" | folder=")[-1]:
+        return ("a swamp that holds records was skipped as empty" +
+                (" and its V1 files were removed: nothing is left of it" if r.get("v1") != "same" else ""))
+    if pre:
+        return None                          # skipped (empty swamp): the file is kept, checked above
     if res == "success":
         if r.get("hyd") != "1":
             return "migration succeeded but there is no .hyd file"
@@ -98,7 +131,8 @@ def run(ctx):
             for i, line in enumerate(c.impl):
                 op = c.ops[i] if i < len(c.ops) else ""
                 why = impl_violation(op, line)
-                if why and not (i < len(c.flags) and c.flags[i]):
+                agreed = i < len(c.flags) and c.flags[i] and i not in c.mismatch      # then decide_standard reports it under the model's id
+                if why and not agreed:
                     fid = "C23-impl-" + re.sub(r"\W+", "-", why.split("(")[0].strip())[:50]
                     if fid not in extra:
                         cs = K.case_of(c, i)
@@ -157,11 +191,12 @@ def run(ctx):
     chunks = [len(o.split(" | folder=")[1].split(";")) for o in c.ops if o.startswith("mig ") and " | folder=" in o]
     return K.finish(
         ctx, "proof",
-        rule=("folders = built by the real V1 chronicler from random histories of 1..10 (thorough ..30) write cycles over 2..25 keys (new, "
+        rule=("every run builds its folders in a scratch directory of its own (os.MkdirTemp, removed when nothing failed); folders = built by the real V1 chronicler from random histories of 1..10 (thorough ..30) write cycles over 2..25 keys (new, "
               "rewritten, deleted) with maxFileSize in {40,120,400,8192} bytes, plus an empty swamp, the recorded chunk-overflow history and "
               "hand-made folders with a key twice inside one chunk; each folder is migrated under all 8 Verify/DeleteOld/DryRun combinations "
               "and (every folder in thorough, three in quick) with one injected failure: open of the first chunk, 1st/2nd/3rd write to the "
-              ".hyd, re-open for verification, k-th unlink; a migration is non-trivial when the folder has at least one record; distinct = "
+              ".hyd, re-open for verification, a key really missing at verification (hook), unreadable meta file, k-th unlink, rmdir; every third folder also with a "
+              "file already at the target path (valid / header-only / junk); a migration is non-trivial when the folder has at least one record; distinct = "
               "distinct (folder, options, fault); compared: result, V1 files afterwards, .hyd present, record-by-record V1 load vs V2 load, name"),
         samples=[{"op": c.ops[i].split(" | folder=")[0][-90:], "impl": c.impl[i] if i < len(c.impl) else "", "model": c.model[i] if i < len(c.model) else ""}
                  for i in range(1, min(len(c.ops), 6))],
@@ -173,6 +208,6 @@ def run(ctx):
                                       "lines_flagged_by_model": sum(1 for f in c.flags if f)},
                    "fact_errors": errs[:10]},
         trusted=["Lean 4.33.0 kernel", "axioms: propext, Classical.choice, Quot.sound", "extract/c23.go", "harness/c23.go", "strace 6.1 fault injection",
-                 "ASSUMED (V2.Lawful; owned by C01/C05): a .hyd file written from inserts with distinct keys loads back to those records and name",
+                 "V2.Lawful discharged for the C01 storage model: Hv.MigrateV2.storV2_lawful (uses Hv.Storage.loadIndex_runOps, replay_eq_specOf, find_specOf)",
                  "ASSUMED: gob decodes the key the V1 engine encoded; snappy round-trips"],
     )
